@@ -3,6 +3,7 @@ package rules
 import (
 	"go/ast"
 	"go/types"
+	"strings"
 
 	"gengoverif/checker/internal/core"
 )
@@ -105,10 +106,19 @@ func aliasSites(p *core.Program) []aliasSite {
 }
 
 // a10Exceptions: reviewed sites, one symbol each.
+// keyed by package + the asserted operand's shape (method chain), not by function or variable names
 var a10Exceptions = map[string]string{
-	"pkg/namer.(*rawNamer).Name :: x.Type().(*types.Named)":                                                "x is a *types.TypeName; only a defined generic type has its own type-parameter list to print, an alias TypeName is rendered through the *types.Alias arm of snippet.ID",
-	"devpkg/deepcopygen/helper.(*StructFieldsCopy).createFieldSnippet :: fn.Results().At(0).Type().(*types.Pointer)": "result type of a DeepCopy method spelled through an alias of a pointer type: outside the property's type domain (methods are generated or written with *T)",
-	"devpkg/deepcopygen/helper.(*StructFieldsCopy).createFieldSnippet :: fn.Params().At(0).Type().(*types.Pointer)":  "parameter type of a DeepCopyInto method spelled through an alias of a pointer type: outside the property's type domain",
+	"pkg/namer :: Type().(*types.Named)":                                        "operand is the Type() of a *types.TypeName; only a defined generic type has its own type-parameter list to print, an alias TypeName is rendered through the *types.Alias arm of snippet.ID",
+	"devpkg/deepcopygen/helper :: Results().At(0).Type().(*types.Pointer)": "result type of a DeepCopy method spelled through an alias of a pointer type: outside the property's type domain (methods are generated or written with *T)",
+	"devpkg/deepcopygen/helper :: Params().At(0).Type().(*types.Pointer)":  "parameter type of a DeepCopyInto method spelled through an alias of a pointer type: outside the property's type domain",
+}
+
+// chainShape drops the leading variable of a method chain: fn.Results().At(0).Type().(*types.Pointer) -> Results().At(0).Type().(*types.Pointer)
+func chainShape(s string) string {
+	if i := strings.Index(s, "."); i > 0 {
+		return s[i+1:]
+	}
+	return s
 }
 
 // a10Report files one obligation per alias-sensitive site in the given packages.
@@ -133,7 +143,7 @@ func a10Report(p *core.Program, r *core.Report, rule string, rels ...string) int
 		case *ast.TypeAssertExpr:
 			construct = core.ExprStr(x)
 		}
-		key := s.F.QName() + " :: " + construct
+		key := core.RelPkg(s.F.Pkg.PkgPath) + " :: " + chainShape(construct)
 		if s.Protected {
 			r.OK(rule, s.F, construct, s.Node.Pos(), "looks through aliases: "+s.How)
 		} else if reason, ok := a10Exceptions[key]; ok {
